@@ -265,6 +265,7 @@ MakeQuorum(s, t) ==
 Carry(b, i) ==
   /\ phase = "run" /\ b \in Ids /\ i \in 1..Len(votes) /\ votes[i].t = b /\ i \notin blk[b].car
   /\ IsAncestor(votes[i].s, b)
+  /\ ~\E j \in blk[b].car : votes[j].v = votes[i].v /\ votes[j].s = votes[i].s   \* one signature slot per (source, validator)
   /\ b \notin stored /\ b \notin Orphans(prevOrph)
   /\ blk' = [blk EXCEPT ![b].car = @ \cup {i}]
   /\ last' = [op |-> "carry", b |-> b, vote |-> i]
